@@ -897,33 +897,47 @@ def clause_has_fn(c, fname):
     return any(in_term(t) for t in ts)
 
 
-ALIAS_MODES = ["let", "let", "let", "head", "head", "neg", "neg", "cmp", "ineq", "fn", "fn", "atom", "atom",
-               "random", "random"]
+ALIAS_MODES = ["let", "head", "neg", "cmp", "ineq", "fn", "atom", "random"]
+_MODE_KINDS = {"let": ("let",), "head": ("head",), "neg": ("neg",), "cmp": ("cmp",), "ineq": ("ineq",),
+               "fn": ("head-fn", "cmp-fn", "ineq-fn", "eq-fn"), "atom": ("atom",)}
 
 
-def _mode_kinds(mode):
-    return {"let": ("let",), "head": ("head",), "neg": ("neg",), "cmp": ("cmp",), "ineq": ("ineq",),
-            "fn": ("head-fn", "cmp-fn", "ineq-fn", "eq-fn"), "atom": ("atom",)}[mode]
+def alias_modes_of(c):
+    """The modes of ALIAS_MODES that clause c offers: a body variable (not defined by the
+    transform) has an occurrence of the mode's kind."""
+    occs = clause_occurrences(c)
+    n = len(c["body"])
+    letdefs = set(v for v, _ in c.get("let", []))
+    cand = set(o["var"] for o in occs if 0 <= o["where"] < n) - letdefs
+    if not cand:
+        return []
+    return [m for m in ALIAS_MODES if m == "random" or
+            any(o["kind"] in _MODE_KINDS[m] and o["var"] in cand for o in occs)]
 
 
-def alias_step(rng, c, tight=False):
+def alias_step(rng, c, tight=False, mode=None):
     """One aliasing step on clause c: a variable V of the body, a chain/tree of 1-3 fresh
-    variables W1.. linked to it by equalities (random orientation, inserted at random body
+    variables W1.. linked to it by equalities (either orientation, inserted at random body
     positions, possibly BEFORE the premise that first mentions V), and some occurrences of V
-    handed over to the Wi. The declarative reading is unchanged (the equalities force all
-    members equal). With tight=True every equality is placed before the first body occurrence
-    of V, so that also every intermediate solution set of the left-to-right join is the
-    original one (used for clauses with fn:div, where a wider intermediate join could raise
-    an error the original does not raise). Returns (clause, info) or None."""
+    handed over to the Wi: those of one kind (mode let / head / neg / cmp / ineq / fn = function
+    argument / atom) or a random subset (mode random). CheckRule wants a comparison operand or
+    function argument bound by a positive atom, so in modes cmp and fn the alias usually takes
+    over an earlier positive-atom occurrence too. The declarative reading is unchanged (the
+    equalities force all members equal). With tight=True every equality is placed before the
+    first body occurrence of V, so that also every intermediate solution set of the
+    left-to-right join is the original one (used for clauses with fn:div, where a wider
+    intermediate join could raise an error the original does not raise).
+    Returns (clause, info) or None."""
     occs = clause_occurrences(c)
     n = len(c["body"])
     letdefs = set(v for v, _ in c.get("let", []))
     cand = sorted(set(o["var"] for o in occs if 0 <= o["where"] < n) - letdefs)
     if not cand:
         return None
-    mode = rng.choice(ALIAS_MODES)
+    if mode is None:
+        mode = rng.choice(ALIAS_MODES)
     if mode != "random":
-        ks = _mode_kinds(mode)
+        ks = _MODE_KINDS[mode]
         have = sorted(set(o["var"] for o in occs if o["kind"] in ks and o["var"] in cand))
         if not have:
             mode = "random"
@@ -946,18 +960,26 @@ def alias_step(rng, c, tight=False):
         if not assign:
             assign[rng.choice(mine)["i"]] = members[-1]
     else:
-        tgt = [o for o in mine if o["kind"] in _mode_kinds(mode)]
+        tgt = [o for o in mine if o["kind"] in _MODE_KINDS[mode]]
         if len(tgt) > 1 and rng.random() < 0.3:
             tgt = rng.sample(tgt, rng.randint(1, len(tgt) - 1))
         for o in tgt:
             assign[o["i"]] = members[-1]
-        if rng.random() < 0.25:
+        if mode in ("cmp", "fn") and rng.random() < 0.75:
+            lim = min([o["where"] for o in tgt if o["where"] >= 0] or [n])
+            atoms = [o for o in mine if o["kind"] == "atom" and o["where"] < lim]
+            if atoms:
+                assign[rng.choice(atoms)["i"]] = members[-1]
+        if rng.random() < 0.2:
             for o in mine:
                 if o["i"] not in assign and rng.random() < 0.4:
                     assign[o["i"]] = rng.choice(members[1:])
     first = min([o["where"] for o in mine if 0 <= o["where"] < n])
     x = rng.random()
     placement = "before" if (tight or x < 0.5) else ("after" if x < 0.75 else "any")
+    # CheckRule's own union-find makes the right-hand side the representative: `new = old`
+    # is the orientation it admits when the new variable occurs in no positive atom
+    p_new_left = rng.choice([0.5, 0.85, 1.0])
     eqs = []
     for child, parent in links:
         if placement == "before":
@@ -966,7 +988,7 @@ def alias_step(rng, c, tight=False):
             slot = rng.randint(first + 1, n)
         else:
             slot = rng.randint(0, n)
-        new_left = rng.random() < 0.5
+        new_left = rng.random() < p_new_left
         eqs.append((slot, rng.random(), ["eq", var(child), var(parent)] if new_left else ["eq", var(parent), var(child)],
                     "new=old" if new_left else "old=new"))
     counter = [0]
@@ -989,21 +1011,29 @@ def alias_step(rng, c, tight=False):
         e = c["body"][first]
         binder = "eq-fn" if (e[1][0] == "app" or e[2][0] == "app") else ("eq-const" if (e[1][0] == "c" or e[2][0] == "c") else "eq-var")
     info = {"var": v, "chain": length, "mode": mode, "placement": placement, "moved": moved,
-            "only": moved[0] if len(moved) == 1 and all((o["i"] in assign) == (o["kind"] == moved[0]) for o in mine) else None,
+            "only": moved[0] if len(moved) == 1 else None,
             "orient": [e[3] for e in eqs], "slots": [e[0] for e in eqs], "first_use": first, "binder": binder,
             "eq_before_binder": any(e[0] <= first for e in eqs)}
     return out, info
 
 
 def alias_candidates(rng, c, k):
-    """Up to k distinct aliasing variants of clause c (each 1, sometimes 2 steps) with their
-    descriptions: [(clause, [info, ...])]."""
+    """Up to k distinct aliasing variants of clause c with their descriptions
+    [(clause, [info, ...])]: the modes the clause offers are used in turn (starting at a
+    random one, mode let first when there is a transform); a quarter get a second step."""
     tight = clause_has_fn(c, "div")
+    modes = alias_modes_of(c)
+    if not modes:
+        return []
+    rng.shuffle(modes)
+    if "let" in modes:
+        modes.remove("let")
+        modes.insert(0, "let")
     out, seen = [], set([clause_text(c)])
-    for _ in range(2 * k):
+    for j in range(2 * k):
         if len(out) >= k:
             break
-        r = alias_step(rng, c, tight)
+        r = alias_step(rng, c, tight, modes[j % len(modes)])
         if r is None:
             break
         cl, infos = r[0], [r[1]]
